@@ -67,9 +67,15 @@ class LegacyStore(AbstractStorage):
     create_bucket = update_bucket = delete_bucket = insert_one = insert_many = delete = replace = replace_last = _w
 
 
-def h_migrate(x, nb, ne):
-    testing = x.flag("testing")
-    li = x.choice("listing", len(LISTINGS))
+def h_migrate(x, nb, ne, ieee=False):
+    from symex import fp
+    from . import c01
+
+    if ieee:
+        testing, li = False, 2
+    else:
+        testing = x.flag("testing")
+        li = x.choice("listing", len(LISTINGS))
     lname, files, expect = LISTINGS[li]
     bids = list(BUCKET_META)[:nb]
     LegacyStore.instances = []
@@ -78,7 +84,19 @@ def h_migrate(x, nb, ne):
     allrows = []
     LegacyStore.events = {}
     for i, b in enumerate(bids):
-        rows = ST.sym_rows(x, "l%d" % i, ne)
+        if ieee:
+            # one event, instant in 2020..2038, duration in a range piece chosen by forking: the copy runs
+            # under IEEE double rounding (durations must survive to the microsecond)
+            dp = x.choice("d_piece", len(c01.D_PIECES))
+            dlo, dhi = c01.D_PIECES[dp]
+            k = x.zint("k", 1577836800000, 2147483647999)
+            d = x.zint("d", dlo, dhi)
+            if x.sym:
+                fp.declare_bounds("k", 1577836800000, 2147483647999)
+                fp.declare_bounds("d", dlo, dhi)
+            rows = [Row(x.zint("lid", 1, 10**6), k * 1000, d, x.zint("ltag", 0, 2))]
+        else:
+            rows = ST.sym_rows(x, "l%d" % i, ne)
         LegacyStore.events[b] = rows
         allrows += rows
     if len(allrows) <= 8:
@@ -117,7 +135,17 @@ def h_migrate(x, nb, ne):
         from aw_datastore import Datastore
         from aw_datastore.storages import SqliteStorage
 
-        ds = Datastore(SqliteStorage, testing=testing)
+        if ieee and x.sym:
+            fp.IEEE = True
+        try:
+            ds = Datastore(SqliteStorage, testing=testing)
+            if ieee:
+                have_ieee = [row_of_event(e) for e in ds[bids[0]].get(-1)] if bids[0] in ds.buckets() else []
+        finally:
+            fp.IEEE = False
+        if ieee:
+            src = LegacyStore.events[bids[0]][0]
+            return [("ieee-migrated-event-keeps-instant-and-duration", len(have_ieee) == 1 and And(have_ieee[0].start == src.start, have_ieee[0].dur == src.dur, have_ieee[0].tag == src.tag))], [len(have_ieee)]
         migrated = len(LegacyStore.instances) > 0
         obl = [("migration-runs-iff-a-legacy-file-of-this-profile-exists", migrated == expect[testing])]
         if migrated:
@@ -162,6 +190,7 @@ def harnesses(tier):
     hs = []
     for nb, ne in ([(1, 2), (2, 1), (1, 101)] if tier == "quick" else [(1, 2), (2, 1), (2, 2), (1, 3), (1, 101), (1, 230)]):
         hs.append((Harness(PROP, "migrate-%db-%de" % (nb, ne), h_migrate, dict(nb=nb, ne=ne), "first start of the default SqliteStorage beside a legacy store with %d bucket(s) x %d event(s) carrying ids; directory listing and profile chosen by forking" % (nb, ne), split_depth=6), 1800))
+    hs.append((Harness(PROP, "migrate-ieee-durations", h_migrate, dict(nb=1, ne=1, ieee=True), "one legacy event copied under IEEE double rounding: every duration 0..30 d (80 range pieces), instants 2020..2038", split_depth=4, fresh_solver=True), 1800))
     return hs
 
 
